@@ -203,19 +203,36 @@ def check_partition_relations(world, rec):
         B = world.allobj[Bn]
         d = B.get_nb_blocks()
         mine = [it for it in delivered if any(r["obj"] is it["obj"] and r["owner"] is B for r in rec.created)]
-        # reference model: every point object the partition decomposed (requested by the session or by a class)
-        pts = list(B.blocks_dict.keys())
+        # reference model: every point the partition decomposed, as known to the *harness*: points requested by
+        # the session (by object), temporaries decomposed on the fly (their blocks), gradients of the samples of
+        # block-smooth functions built on this partition (decomposed while class constraints are generated)
+        decomposed = []     # list of block lists
+        seen_obj = set()
+        for (bn, xn) in world.block_requests:
+            if bn == Bn and xn in world.allobj and id(world.allobj[xn]) not in seen_obj:
+                x = world.allobj[xn]
+                seen_obj.add(id(x))
+                decomposed.append([B.get_block(x, k) for k in range(d)])
+        for (bn, den, blks) in world.temp_decomposed:
+            if bn == Bn:
+                decomposed.append(list(blks))
+        for fn in (rec.ledger_snapshot or {}).get("funcs", []):
+            F = world.allobj.get(fn)
+            if F is not None and getattr(F, "partition", None) is B and len(F.list_of_points) >= 2:
+                # (with a single sample the class has no pair to constrain and decomposes nothing)
+                for (x, g, v) in F.list_of_points:
+                    if id(g) not in seen_obj:
+                        seen_obj.add(id(g))
+                        decomposed.append([B.get_block(g, k) for k in range(d)])
+        pts = decomposed
         want = []
-        blocks = {}
-        for x in pts:
-            blocks[id(x)] = [B.get_block(x, k) for k in range(d)]
-        for x in pts:
-            for y in pts:
+        for bx in decomposed:
+            for by in decomposed:
                 for k in range(d):
                     for l in range(d):
                         if k == l:
                             continue
-                        e = blocks[id(x)][k] * blocks[id(y)][l]
+                        e = bx[k] * by[l]
                         want.append(seam.expression_sig(e))
         have = [it["sig"] for it in mine]
         # set semantics, up to sign (an equality e == 0 and -e == 0 are the same relation)
@@ -240,10 +257,6 @@ def check_partition_relations(world, rec):
             if it["sense"] != "eq":
                 world.violation("C15/relations", "partition-relation-is-not-an-equality", {"B": Bn})
                 break
-        # the session's requests must all be known to the partition (a never-requested point is not decomposed)
-        for (bn, xn) in world.block_requests:
-            if bn == Bn and not any(x is world.allobj[xn] for x in pts):
-                world.violation("C15/relations", "decomposed-point-forgotten-by-the-partition", {"B": Bn, "x": xn})
         # concrete side: bind every leaf point to a vector of R^n, blocks to true coordinate projections
         if d >= 2 and pts:
             leaves = {}
@@ -252,27 +265,45 @@ def check_partition_relations(world, rec):
             proj = [np.zeros(nvec) for _ in range(d)]
             for c in range(nvec):
                 proj[c % d][c] = 1.0
+            # each decomposition: blocks 0..d-2 are fresh leaves, the last one is (point - sum of the others);
+            # the decomposed point itself is recovered as the sum of its blocks
             block_leaf = {}
-            for x in pts:
+            for bl in decomposed:
                 for k in range(d - 1):
-                    block_leaf[id(blocks[id(x)][k])] = (x, k)
+                    block_leaf[id(bl[k])] = (bl, k)
 
-            def value(p, depth=0):
-                if id(p) in block_leaf and depth < 50:
-                    x, k = block_leaf[id(p)]
-                    return proj[k] * value(x, depth + 1)
-                v = np.zeros(nvec)
-                for q, w in p.decomposition_dict.items():
-                    if q is p:
-                        if id(q) not in leaves:
-                            leaves[id(q)] = rng.standard_normal(nvec)
-                        v = v + w * leaves[id(q)]
-                    elif id(q) in block_leaf and depth < 50:
-                        v = v + w * value(q, depth + 1)
-                    else:
-                        if id(q) not in leaves:
-                            leaves[id(q)] = rng.standard_normal(nvec)
-                        v = v + w * leaves[id(q)]
+            memo = {}
+            busy = set()
+
+            def leafval(q):
+                if id(q) not in leaves:
+                    leaves[id(q)] = rng.standard_normal(nvec)
+                return leaves[id(q)]
+
+            def value(p):
+                if id(p) in memo:
+                    return memo[id(p)]
+                if id(p) in busy:
+                    return leafval(p)          # inconsistent (cyclic) decomposition: treat as a free vector
+                busy.add(id(p))
+                if id(p) in block_leaf:
+                    bl, k = block_leaf[id(p)]
+                    # the decomposed point = the part of its last block that is not made of its own leaf blocks
+                    tot = np.zeros(nvec)
+                    for q, w in bl[-1].decomposition_dict.items():
+                        if any(q is b2 for b2 in bl[:-1]):
+                            continue
+                        tot = tot + w * (value(q) if q is not bl[-1] else leafval(q))
+                    v = proj[k] * tot
+                else:
+                    v = np.zeros(nvec)
+                    for q, w in p.decomposition_dict.items():
+                        if q is p or id(q) not in block_leaf:
+                            v = v + w * leafval(q)
+                        else:
+                            v = v + w * value(q)
+                busy.discard(id(p))
+                memo[id(p)] = v
                 return v
             worst = 0.0
             for it in mine:
